@@ -40,6 +40,7 @@ type Report struct {
 	Stats    map[string]interface{}
 	Assume   []string
 	Trusted  []string
+	Stable   func(string) string // construct → rename-stable form (set after loading)
 	cfg      string // current configuration label
 	floor    map[string]int
 	count    map[string]int
@@ -121,7 +122,8 @@ type KnownFinding struct {
 	Property  string `json:"property"`
 	Rule      string `json:"rule"`
 	Construct string `json:"construct"`
-	Status    string `json:"status"` // "known" | "fixed"
+	Stable    string `json:"stable_construct,omitempty"` // the construct with unexported function names replaced by rename-stable descriptors
+	Status    string `json:"status"`                     // "known" | "fixed"
 	Commit    string `json:"commit,omitempty"`
 	What      string `json:"what"`
 }
@@ -169,7 +171,7 @@ func (r *Report) Finish(verifDir, evidencePath string) int {
 	isKnown := func(o Obligation) *KnownFinding {
 		for i := range known {
 			k := &known[i]
-			if k.Status == "known" && k.Property == r.Prop && k.Rule == o.Rule && k.Construct == o.Construct {
+			if k.Status == "known" && k.Property == r.Prop && k.Rule == o.Rule && (k.Construct == o.Construct || (k.Stable != "" && r.Stable != nil && k.Stable == r.Stable(o.Construct))) {
 				return k
 			}
 		}
